@@ -197,6 +197,18 @@ def validate(lines, wd, module="ManifTrace", nshards=None, timeout=3000, env=Non
             results.append(dict(ev=shards[i][v[1] - 1], theta=v[2], lin=v[3], gap=v[4], items=[(a, b) for a, b in v[5]]))
     return results, (states, trans)
 
+def validate_shard(lines, wd, module, idx, timeout=3000, env=None):
+    """validate one shard of event lines sequentially (order preserved: stateful trace specs)"""
+    p = os.path.join(wd, "shard_%s_%d.ndjson" % (module, idx))
+    with open(p, "w") as f: f.write("\n".join(lines) + "\n")
+    e = {"TRACE": p}; e.update(env or {})
+    rc, out = tlc(module, env=e, timeout=timeout)
+    vs = [v for v in printed_json(out) if isinstance(v, list) and v and v[0] == "V"]
+    if rc != 0 or len(vs) != len(lines) or "Model checking completed. No error has been found" not in out:
+        raise ModelError("trace shard %d of %s not accepted by TLC (rc=%d, %d/%d events consumed):\n%s" % (idx, module, rc, len(vs), len(lines), out[-3000:]))
+    res = [dict(ev=lines[v[1] - 1], theta=v[2], lin=v[3], gap=v[4], items=[(a, b) for a, b in v[5]]) for v in vs]
+    return res, tlc_stats(out)
+
 # ------------------------------------------------------------------------------------------------
 def load_known():
     p = os.path.join(ROOT, "known_findings.json")
